@@ -226,42 +226,67 @@ Definition bind_outputs (strict : bool) (ds : list decl) (r : retval) : option (
 
 (* ------------------------------------------------------------------ part 5: in-place mutation of inputs *)
 
-(* Input values as trees; the body may replace any sub-value in place.  Hashing is a Section
-   variable at the use sites (Spec/Proofs); the model only fixes the algorithm around it:
-     checksum (directory name) computed and memoised before the body   (Job.checksum)
-     per-field digests stored by that computation                       (Task._hashes)
-     after the body: recompute per-field digests, report the fields whose digest differs
-                                                                        (Task._hash_changes)
-     any reported field => RuntimeError                                 (Job._check_for_hash_changes) *)
+(* Input values as trees; the body may replace any sub-value in place. *)
 Inductive pyval :=
   | VInt (n : nat)
   | VStr (s : string)
-  | VList (xs : list pyval)          (* list / tuple / dict items / object attributes, in hashing order *)
+  | VList (xs : list pyval)          (* list / tuple / set (sorted) / dict items / object attributes, in hashing order *)
   | VArr (shape : list nat) (data : list nat)      (* numpy array *)
-  | VFile (path : string) (content : nat) (mtime : nat).   (* a file input: what bytes_repr_fileset reads *)
+  | VFile (path : string) (content : nat).         (* a file input: name and content, what the fileset hash reads *)
 
 Definition inputs := list (string * pyval).
 
-Section Mutation.
-  Variable digest : pyval -> nat.                  (* hash_function on one field value *)
-  Variable combine_digests : list (string * nat) -> nat.   (* hash_function(sorted(field_hashes.items())) *)
+(* what bytes_repr feeds to the hash, abstractly: a tagged, length-prefixed encoding.
+   [sh] = bytes_repr_numpy covers the shape (probed on the tree under test at run time). *)
+Fixpoint ser (sh : bool) (v : pyval) : list nat :=
+  match v with
+  | VInt n => [0; n]
+  | VStr s => 1 :: String.length s :: map nat_of_ascii (list_ascii_of_string s)
+  | VList xs => 2 :: List.length xs :: flat_map (ser sh) xs
+  | VArr shape data =>
+      3 :: (if sh then List.length shape :: shape else []) ++ List.length data :: data
+  | VFile path content => 4 :: String.length path :: map nat_of_ascii (list_ascii_of_string path) ++ [content]
+  end.
 
+Section Mutation.
+  Variable sh : bool.
+  Variable H : list nat -> nat.                    (* blake2b; no hypothesis *)
+
+  Definition digest (v : pyval) : nat := H (ser sh v).                      (* hash_function(value) *)
+  (* Task._compute_hashes: per-field digests (Task._hashes) and their combination (the checksum) *)
   Definition field_hashes (i : inputs) : list (string * nat) := map (fun f => (fst f, digest (snd f))) i.
-  Definition checksum (i : inputs) : nat := combine_digests (field_hashes i).
+  Definition checksum (i : inputs) : nat := H (map snd (field_hashes i)).
 
   (* Task._hash_changes: names whose recomputed digest differs from the stored one *)
   Fixpoint hash_changes (old : list (string * nat)) (now : inputs) : list string :=
     match old, now with
-    | (k, h) :: old', (_, v) :: now' => if Nat.eqb h (digest v) then hash_changes old' now' else k :: hash_changes old' now'
+    | (k, h) :: old', (_, v) :: now' =>
+        if Nat.eqb h (digest v) then hash_changes old' now' else k :: hash_changes old' now'
     | _, _ => []
     end.
 
-  (* Job.run around the body: returns (directory name used, raised?) *)
-  Definition run_with_check (i : inputs) (bodyf : inputs -> inputs) : nat * bool :=
-    let hs := field_hashes i in                 (* Job.checksum -> task._hash, memoised *)
-    let name := combine_digests hs in
-    let i' := bodyf i in                        (* the body works on the very same objects *)
-    (name, match hash_changes hs i' with [] => false | _ => true end).
+  (* Job.run + Submitter.__call__ around the body:
+       Job.checksum is computed (and memoised) before the body, with it Task._hashes;
+       the body works on the very same objects;
+       the result is saved (as a success) under the memoised name;
+       Job._check_for_hash_changes then raises RuntimeError if any field digest differs;
+       Submitter.__call__ re-raises if raise_errors or if its job.result() finds nothing, otherwise it
+       logs and returns the stored result.
+     [shared]: the body's changes are visible to the submitting process (debug worker: same objects;
+               cf worker: only files on disk — the job is pickled into the worker process).
+     [late]:   the submitting process computes its Job's checksum only after the body (cf worker: the
+               job is pickled with _checksum = None and Job.run happens elsewhere), so it looks for the
+               result under the identity of the inputs as it sees them *then*.
+     Returns (directory name, change detected, error reported to the caller). *)
+  Definition run_with_check (raise_errors late shared : bool) (i : inputs) (bodyf : inputs -> inputs)
+    : nat * bool * bool :=
+    let hs := field_hashes i in
+    let name := H (map snd hs) in
+    let i' := bodyf i in
+    let detected := match hash_changes hs i' with [] => false | _ => true end in
+    let parent_sees := if shared then i' else i in
+    let found := negb late || Nat.eqb (checksum parent_sees) name in
+    (name, detected, detected && (raise_errors || negb found)).
 End Mutation.
 
 (* copy-mode staging of a file input (Job.inputs -> copy_nested_files with mode = copy):
